@@ -425,7 +425,7 @@ func (s *state) formatRecursive(err error, isOutermost, withDetail, withDepth bo
 		//   the Format() method is likely to be calling FormatError()
 		//   to do its job and we want to avoid an infinite recursion.
 		if !isOutermost && cause == nil {
-			v.Format(s, 'v')
+			v.Format((*leafState)(s), 'v')
 			if st, ok := err.(StackTraceProvider); ok {
 				// This is likely a leaf error from github/pkg/errors.
 				// The thing probably printed its stack trace on its own.
@@ -839,6 +839,18 @@ func (s *state) Write(b []byte) (n int, err error) {
 	s.buf.Write(b[k:])
 	return len(b), nil
 }
+
+// leafState is the fmt.State handed to the Format method of a leaf
+// error that does not know about FormatError. It only advertises the
+// '+' flag (when details are requested): the width, precision and
+// other flags of the enclosing call apply to the final result as a
+// whole, in finishDisplay(), not to the leaf's part of it.
+type leafState state
+
+func (s *leafState) Write(b []byte) (int, error) { return (*state)(s).Write(b) }
+func (s *leafState) Width() (int, bool)          { return 0, false }
+func (s *leafState) Precision() (int, bool)      { return 0, false }
+func (s *leafState) Flag(c int) bool             { return c == '+' && s.wantDetail }
 
 // printer wraps a state to implement an xerrors.Printer.
 type printer state
